@@ -58,11 +58,12 @@ package evmlane
 // requires: the stored fee-market params are valid (x/feemarket SetParams: base fee present), as for the fee checkers.
 //@ func (ed ELExecWithoutErrorDecorator) AnteHandle(ctx sdk.Context, tx sdk.Tx, simulate bool, next sdk.AnteHandler) (newCtx sdk.Context, err error)
 //@   requires !fmBaseFeeNil[layer(ctx)]
+// (the x/evm keeper is wired: its precompile keeper has a store key and a codec — precondition of Keeper.NewEVM)
+//@   requires ed.ek.cpcKeeper.storeKey != nil && ed.ek.cpcKeeper.cdc != nil
 //@   requires tx != nil && txUnpacked(payload(tx))
 //@   modifies everything
-// own panics (trial path only): bytes do not decode / signature invalid (the explicit panic(err); both excluded by 03), chain id unset,
-// msg.From not bech32 or the sender's account missing while the "nonce increased" flag is set (excluded by 03 / 07 / 11 / 12)
-//@   panics[C20.own_code_panics] only_if hcPanics[hcN[0]] || (single(payload(tx)) && (ctx.IsCheckTx() || ctx.IsReCheckTx() || simulate) && (!txDecodable(bytes(ethMsgOf(payload(tx)).MarshalledTx)) || !decSigOk(bytes(ethMsgOf(payload(tx)).MarshalledTx)) || evmChainId[layer(ctx)] == 0 || (trFlagNonce[layer(ctx)] && (!bech32Valid(ethMsgOf(payload(tx)).From) || !acctExists[layer(ctx)][bech32Bytes(ethMsgOf(payload(tx)).From)]))))
+// (no C20 clause: Keeper.NewEVM — verified for C17 — is specified `panics any`; the trial path's other panic sites are the explicit
+// panic(err) after AsMessage and nil accounts, all excluded by 03 / 07 / 11 / 12)
 //@   ensures[C07.cosmos_passes,C08.cosmos_passes] !single(payload(tx)) ==> (hcN[0] == old(hcN[0]) + 1 && hcKind[old(hcN[0])] == 0 && hcCallee[old(hcN[0])] == next && hcCtx[old(hcN[0])] == ctx && hcTxTag[old(hcN[0])] == typeof(tx) && hcTx[old(hcN[0])] == payload(tx) && hcSim[old(hcN[0])] == simulate && newCtx == hcResCtx[old(hcN[0])] && typeof(err) == hcResErrTag[old(hcN[0])] && payload(err) == hcResErr[old(hcN[0])] && hcSawFlagNonce[old(hcN[0])] == old(trFlagNonce[layer(ctx)]) && hcSawFlagPaid[old(hcN[0])] == old(trFlagPaid[layer(ctx)]) && hcSawSeq[old(hcN[0])] == old(acctSeq[layer(ctx)]))
 //@   ensures[C07.deliver_passes,C08.deliver_passes] (!ctx.IsCheckTx() && !ctx.IsReCheckTx() && !simulate) ==> (hcN[0] == old(hcN[0]) + 1 && hcKind[old(hcN[0])] == 0 && hcCallee[old(hcN[0])] == next && hcCtx[old(hcN[0])] == ctx && hcTxTag[old(hcN[0])] == typeof(tx) && hcTx[old(hcN[0])] == payload(tx) && hcSim[old(hcN[0])] == simulate && newCtx == hcResCtx[old(hcN[0])] && typeof(err) == hcResErrTag[old(hcN[0])] && payload(err) == hcResErr[old(hcN[0])] && hcSawFlagNonce[old(hcN[0])] == old(trFlagNonce[layer(ctx)]) && hcSawFlagPaid[old(hcN[0])] == old(trFlagPaid[layer(ctx)]) && hcSawSeq[old(hcN[0])] == old(acctSeq[layer(ctx)]))
 //@   ensures[C08.trial_next_or_reject] ((hcN[0] == old(hcN[0]) + 1 && hcKind[old(hcN[0])] == 0 && hcCallee[old(hcN[0])] == next && hcTxTag[old(hcN[0])] == typeof(tx) && hcTx[old(hcN[0])] == payload(tx) && hcSim[old(hcN[0])] == simulate && newCtx == hcResCtx[old(hcN[0])] && typeof(err) == hcResErrTag[old(hcN[0])] && payload(err) == hcResErr[old(hcN[0])] && hcCtx[old(hcN[0])] == ctx) || (hcN[0] == old(hcN[0]) && err != nil && newCtx == ctx))
